@@ -33,6 +33,8 @@ type Expect struct {
 	Pongs     []string `json:"pongs"`           // pong payloads that must be written (hex), in order
 	MaybePongs []string `json:"maybe_pongs,omitempty"` // further pongs that may follow (compressed read-ahead)
 	Why       string   `json:"why"`             // human description of the stop point
+	MaxPartial int     `json:"max_partial,omitempty"` // >0: at most this many bytes may be handed out for the failing message
+	WantClose  int     `json:"want_close,omitempty"`  // >0: a Close frame with this code must be written
 }
 
 type ReadCase struct {
@@ -267,6 +269,20 @@ func checkExpect(c *ReadCase, o *Obs) (shape, what string) {
 	for i, p := range pongs {
 		if p != all[i] {
 			return "pong-payload", fmt.Sprintf("pong %d carries %s, want %s", i, p, all[i])
+		}
+	}
+	if exp.MaxPartial > 0 && last.Kind == "partial" && len(last.Data) > exp.MaxPartial {
+		return "limit-exceeded", fmt.Sprintf("%d bytes handed out, limit allows at most %d (%s)", len(last.Data), exp.MaxPartial, exp.Why)
+	}
+	if exp.WantClose > 0 {
+		found := false
+		for _, f := range o.Replies {
+			if f.Op == 8 && len(f.Payload) >= 2 && int(f.Payload[0])<<8|int(f.Payload[1]) == exp.WantClose {
+				found = true
+			}
+		}
+		if !found {
+			return "close-code-missing", fmt.Sprintf("no Close frame with status %d was written (%s)", exp.WantClose, exp.Why)
 		}
 	}
 	if exp.Close != "" {
